@@ -318,4 +318,72 @@ theorem memberPrelude_some {P : Prims} {s : St} (h : NoPending s) (h203 : s.regs
   obtain ⟨h1, h2, h3⟩ := h
   simp [memberPrelude, memberRules, bitmapDefinition, h1, h2, h3, h203]
 
+theorem scopesClosed_append (a b : List Nat) :
+    scopesClosed a = true → scopesClosed b = true → scopesClosed (a ++ b) = true := by
+  fun_induction scopesClosed a
+  · intro _ hb; exact hb
+  · intro h; cases h
+  · rename_i id h1 hy f rest ih
+    intro h hb
+    simp only [Bool.and_eq_true, decide_eq_true_eq] at h
+    rw [List.cons_append, List.cons_append, scopesClosed.eq_def]
+    simp only [h1, hy, and_self, if_true, List.length_append, Bool.and_eq_true, decide_eq_true_eq,
+      List.drop_append_of_le_length h.1, ih h.2 hb, and_true]
+    omega
+  · rename_i id rest h1 hy ih
+    intro h hb
+    simp only [Bool.and_eq_true, decide_eq_true_eq] at h
+    rw [List.cons_append, scopesClosed.eq_def]
+    simp only [h1, hy, and_self, if_true, if_false, List.length_append, Bool.and_eq_true, decide_eq_true_eq,
+      List.drop_append_of_le_length h.1, ih h.2 hb, and_true]
+    omega
+  · rename_i id rest h1 ih
+    intro h hb
+    rw [List.cons_append, scopesClosed.eq_def]
+    simp only [h1, if_false, ih h hb]
+
+theorem scopesClosed_replicate (n : Nat) (body : List Nat) (h : scopesClosed body = true) :
+    scopesClosed (List.replicate n body).flatten = true := by
+  induction n with
+  | zero => simp [scopesClosed]
+  | succ n ih =>
+    rw [List.replicate_succ, List.flatten_cons]
+    exact scopesClosed_append _ _ h ih
+
+theorem iterN_flat (P : Prims) (T : Tables) (f : Nat) (body : List Nat) (h : scopesClosed body = true)
+    (n : Nat) (s : St) :
+    iterN n (flatWalk P T f body) s = flatWalk P T f (List.replicate n body).flatten s := by
+  induction n generalizing s with
+  | zero => rw [flatWalk.eq_def]; rfl
+  | succ n ih =>
+    rw [List.replicate_succ, List.flatten_cons, flatWalk_append P T f _ _ h, iterN]
+    cases flatWalk P T f body s with
+    | error e => rfl
+    | ok s' => exact ih s'
+
+theorem fm94Strict_wf (T : Tables) (depth : Nat) (ids : List Nat) :
+    fm94Strict T depth ids = true → wfCount T depth ids = true := by
+  fun_induction wfCount T depth ids
+  · intro _; rfl
+  · rename_i depth id rest h3 hd ih
+    rw [fm94Strict.eq_def]; simp only [h3, if_true, hd]; exact ih
+  · rename_i id rest h3 row hd
+    rw [fm94Strict.eq_def]; simp only [h3, if_true, hd]; intro h; cases h
+  · rename_i id rest h3 row hd depth ih1 ih2
+    rw [fm94Strict.eq_def]; simp only [h3, if_true, hd, Bool.and_eq_true]
+    exact fun h => ⟨ih1 h.1, ih2 h.2⟩
+  · rename_i depth id rest h3 h2 ih
+    rw [fm94Strict.eq_def]; simp only [h3, h2, if_true, if_false, Bool.and_eq_true]
+    exact fun h => ih h.2
+  · rename_i depth id h3 h2 h1 hy
+    rw [fm94Strict.eq_def]; simp only [h3, h2, h1, hy, if_true, if_false]; intro h; cases h
+  · rename_i depth id h3 h2 h1 hy f rest ih1 ih2
+    rw [fm94Strict.eq_def]; simp only [h3, h2, h1, hy, if_true, if_false, Bool.and_eq_true]
+    exact fun h => ⟨ih1 h.1.2, ih2 h.2⟩
+  · rename_i depth id rest h3 h2 h1 hy ih1 ih2
+    rw [fm94Strict.eq_def]; simp only [h3, h2, h1, hy, if_true, if_false, Bool.and_eq_true]
+    exact fun h => ⟨ih1 h.1.2, ih2 h.2⟩
+  · rename_i depth id rest h3 h2 h1 ih
+    rw [fm94Strict.eq_def]; simp only [h3, h2, h1, if_false]; exact ih
+
 end Bufr.Flat
